@@ -11,4 +11,6 @@ VARIANTS = [
  dict(id='c14-score-not-normalised-by-samples', prop='C14', expect='C14-D9', file='scared/distinguishers/template.py', old="        self._scores += _np.array(scores) / traces.shape[1]\n", new="        self._scores += _np.array(scores) / traces.shape[0]\n"),
  dict(id='c14-template-sign', prop='C14', expect='C14-D9', file='scared/distinguishers/template.py', old="            tmp_traces = traces - self.templates[self.get_template_index(data, i)]\n", new="            tmp_traces = traces + self.templates[self.get_template_index(data, i)]\n"),
  dict(id='c14-silent-covariance-regrouped', prop='C14', kind='silent', file='scared/distinguishers/template.py', old="            self.pooled_covariance += (self._exxi[i] - tmp_matrix) / (tmp_counters[i] - 1)\n", new="            within = self._exxi[i] - tmp_matrix\n            self.pooled_covariance += within / (tmp_counters[i] - 1)\n"),
+ dict(id='c14-template-kernel1-outer-with-itself-only', prop='C14', expect='C14-D12', file='scared/distinguishers/template.py',
+      old="                    self_exxi[data_value, sample_idx] += x * traces[trace_idx]\n", new="                    self_exxi[data_value, sample_idx, sample_idx] += x * x\n"),
 ]
